@@ -79,6 +79,14 @@ impl View for BigUint { type V = nat; uninterp spec fn view(&self) -> nat; }
 pub open spec fn size_ok(n: int) -> bool { -pow10(0x0400_0000_0000_0000) < n < pow10(0x0400_0000_0000_0000) }
 
 pub uninterp spec fn spec_magnitude(n: &BigInt) -> BigUint;
+/// bit length of |v| (num-bigint `bits()`): 0 for zero, else 2^(b-1) <= |v| < 2^b; below 2^60 by the size assumption
+pub uninterp spec fn bits_spec(v: int) -> int;
+#[verifier::external_body]
+pub proof fn lemma_bits_spec(v: int)
+    ensures 0 <= bits_spec(v) < 0x1000_0000_0000_0000,
+            v == 0 ==> bits_spec(v) == 0,
+            v != 0 ==> bits_spec(v) >= 1 && pow2i(bits_spec(v) - 1) <= iabs(v) < pow2i(bits_spec(v))
+{}
 #[verifier::external_body]
 pub broadcast proof fn axiom_spec_magnitude(n: &BigInt)
     ensures #[trigger] spec_magnitude(n)@ == iabs(n@)
@@ -305,7 +313,8 @@ impl BigInt {
     { unimplemented!() }
     #[verifier::external_body]
     pub fn bits(&self) -> (ret: u64)
-        ensures self@ == 0 ==> ret == 0,
+        ensures ret == bits_spec(self@),
+                self@ == 0 ==> ret == 0,
                 self@ != 0 ==> pow2i(ret as int - 1) <= iabs(self@) < pow2i(ret as int),
                 ret < 0x1000_0000_0000_0000
     { unimplemented!() }
@@ -340,11 +349,22 @@ impl BigInt {
 }
 
 pub open spec fn pow2i(n: int) -> int { if n <= 0 { 1 } else { vstd::arithmetic::power::pow(2, n as nat) } }
+pub proof fn lemma_pow2i_succ(n: int) requires n >= 0 ensures pow2i(n + 1) == 2 * pow2i(n), pow2i(n) > 0
+{
+    reveal(vstd::arithmetic::power::pow);
+    if n == 0 { assert(vstd::arithmetic::power::pow(2, 1) == 2 * vstd::arithmetic::power::pow(2, 0)); }
+    if n > 0 { vstd::arithmetic::power::lemma_pow_positive(2, n as nat); }
+}
+/// size assumption: a big integer has fewer than 2^60 decimal digits
+#[verifier::external_body]
+pub proof fn lemma_size_digits(n: &BigUint) ensures ndigits(n@ as int) < 0x1000_0000_0000_0000 {}
+
 
 impl BigUint {
     #[verifier::external_body]
     pub fn bits(&self) -> (ret: u64)
-        ensures self@ == 0 ==> ret == 0,
+        ensures ret == bits_spec(self@ as int),
+                self@ == 0 ==> ret == 0,
                 self@ != 0 ==> pow2i(ret as int - 1) <= self@ < pow2i(ret as int),
                 ret < 0x1000_0000_0000_0000
     { unimplemented!() }
@@ -396,6 +416,14 @@ pub fn iter_any_nonzero(x: &[u8]) -> (ret: bool) ensures ret == !all_zero(x@) { 
 #[verifier::external_body]
 pub fn slices_equal(a: &[u8], b: &[u8]) -> (ret: bool)
     ensures ret == (forall|i: int| 0 <= i < a@.len() && i < b@.len() ==> a@[i] == b@[i])
+{ unimplemented!() }
+
+/// R6f / float axiom A1: `(bits as f64 / LOG2_10) as u64` never over-estimates: 10^g <= 2^bits.
+/// IEEE-754 behaviour is outside Verus; Kani checks this bit-precisely for bits < 2^16 (harness a1_digit_estimate).
+#[verifier::external_body]
+pub fn f64_digit_estimate(bits: u64) -> (ret: u64)
+    requires bits < 0x1000_0000_0000_0000
+    ensures ret <= bits, pow10(ret as int) <= pow2i(bits as int)
 { unimplemented!() }
 
 // ------------------------------------------------------------------ std
